@@ -69,6 +69,13 @@ def run(tier):
             if ne > 0:
                 if src.get("val") != rec["src"]["val"] or src.get("first") != rec["src"]["first"]:
                     bad.append(("harness_source", rec["src"], src))
+                if "pmr_eq" in o:
+                    if o.get("pmr_eq") is not True:
+                        bad.append(("pmr_loaded_differs", True, o.get("pmr_eq")))
+                    if o.get("pmr_names_its_resource") is not True or o.get("pmr_block_from_its_resource") is not True:
+                        bad.append(("pmr_array_left_its_memory_resource", True, [o.get("pmr_names_its_resource"), o.get("pmr_block_from_its_resource")]))
+                    if o.get("pmr_foreign_deallocations") != 0 or o.get("pmr_left_allocated") != 0:
+                        bad.append(("pmr_blocks_returned_to_another_resource_or_leaked", [0, 0], [o.get("pmr_foreign_deallocations"), o.get("pmr_left_allocated")]))
                 if o.get("xml_tokens") != rec["tokens"]:
                     bad.append(("archive_token_order", rec["tokens"], o.get("xml_tokens")))
             if bad:
